@@ -134,10 +134,29 @@ type execResult struct {
 // choice 0 (keep running the current thread if it is enabled, else the lowest id).
 // buildShared materialises the value. Variants 0/1 build the struct field by field (exact-size slices); variants
 // 2/3 decode the reference encoding with the generated decoder, the way shared messages usually come to be
-// (slices grown by append, spare capacity).
+// (slices grown by append, spare capacity); variants 4/5 add the nil artefacts plain Go code can build.
 func buildShared(d protoreflect.Message, variant int) proto.Message {
 	if variant < 2 {
 		return enum.BuildGo(d)
+	}
+	if variant >= 4 {
+		// what plain Go code can build: a nil element in every message list, a nil value in every message map, the first
+		// message-kind member of every oneof selected with nil inside its wrapper
+		g := enum.BuildGo(d)
+		fs := d.Descriptor().Fields()
+		doneOneof := map[string]bool{}
+		for i := 0; i < fs.Len(); i++ {
+			fd := fs.Get(i)
+			switch {
+			case fd.IsList() && fd.Kind() == protoreflect.MessageKind, fd.IsMap() && fd.MapValue().Kind() == protoreflect.MessageKind:
+				enum.InjectNil(g, int(fd.Number()))
+			case fd.ContainingOneof() != nil && !fd.ContainingOneof().IsSynthetic() && fd.Kind() == protoreflect.MessageKind && !doneOneof[string(fd.ContainingOneof().Name())]:
+				if enum.InjectNilOneof(g, fd) {
+					doneOneof[string(fd.ContainingOneof().Name())] = true
+				}
+			}
+		}
+		return g
 	}
 	b, err := proto.MarshalOptions{Deterministic: true}.Marshal(d.Interface())
 	if err != nil {
@@ -408,7 +427,7 @@ func runScheduler(h *hz.H) {
 			// all ordered pairs, 1 op each, unbounded; plus 3 threads x 1 op and 2 threads x 2 ops with preemption bound 2 on the first types
 			for i := range alpha {
 				for j := range alpha {
-					jobs = append(jobs, job{md, 2 * ((i + j) % 2), [][]readOp{{alpha[i]}, {alpha[j]}}, 1 << 30, 200000})
+					jobs = append(jobs, job{md, 2 * ((i + j) % 3), [][]readOp{{alpha[i]}, {alpha[j]}}, 1 << 30, 200000})
 				}
 			}
 			if ti < 3 {
@@ -425,7 +444,7 @@ func runScheduler(h *hz.H) {
 					if ti >= 3 && i != j && (i+j)%2 == 1 {
 						continue
 					}
-					jobs = append(jobs, job{md, 2 * ((i + j) % 2), [][]readOp{{alpha[i]}, {alpha[j]}}, 2, 6000})
+					jobs = append(jobs, job{md, 2 * ((i + j) % 3), [][]readOp{{alpha[i]}, {alpha[j]}}, 2, 6000})
 				}
 			}
 		}
@@ -436,7 +455,7 @@ func runScheduler(h *hz.H) {
 	for _, md := range types {
 		for ai, a := range fast {
 			for bi, b := range fast {
-				jobs = append(jobs, job{md, 1 + 2*((ai+bi)%2), [][]readOp{{a}, {b}}, 1 << 30, 20000})
+				jobs = append(jobs, job{md, 1 + 2*((ai+bi)%3), [][]readOp{{a}, {b}}, 1 << 30, 20000})
 			}
 			if h.Thorough() {
 				for _, j := range quickOps {
@@ -704,7 +723,7 @@ func runRacePass(h *hz.H) {
 	h.Rep.Bounds["partB_operation_tuples"] = len(tuples)
 	h.Rep.Bounds["partB_repetitions_per_tuple"] = reps
 	for _, md := range types {
-		for variant := 0; variant < 4; variant++ {
+		for variant := 0; variant < 5; variant++ {
 			d := richValue(md, variant)
 			ref := buildShared(d, variant)
 			twinSeq := enum.BuildGo(d)
